@@ -1148,6 +1148,18 @@ def run_C19(ctx, rng, tier, res, known):
             I = out[i]
             if I.startswith("v ") and int(I.split()[1], 16) != want:
                 res.viol.append(("front-end-value", dict(case=lines[i], cfg=key[0], profile=key[1], impl=I, expected_bits="%x" % want)))
+    # the one known finding of C19 (exponent clamp on a ~2 GiB input), replayed on the real code only
+    # (the Lean driver does not materialise 2^31-element lists; the model-level statement is the theorem
+    # C19Final.C19_front_clamp_finding)
+    huge = "fe simple f64 h2e+r2147483630:30+h31+h65+d2147484000"
+    if "std" in ctx.cfgs:
+        o = run_impl("std", "release", [huge])[0]
+        res.evals += 1
+        if o == "v 4341c37937e08000 rest 0":
+            kf = [k for k in known if k.get("property") == "C19" and k.get("kind") == "known"]
+            res.known[kf[0]["what"] if kf else "front-end exponent clamp on ~2 GiB inputs"] = 1
+        elif o != "v 7ff0000000000000 rest 0":
+            res.viol.append(("front-end-value", dict(case=huge, cfg="std", profile="release", impl=o, expected_bits="7ff0000000000000")))
     for i in range(0, len(lines), max(1, len(lines) // 5)):
         res.samples.append(dict(case=lines[i], bytes=bytes.fromhex(lines[i].split()[3][1:]).decode("latin-1") if lines[i].split()[3] != "-" else ""))
     return {}
